@@ -75,7 +75,9 @@ WellFormed(L) == Len(L) >= 1 /\ \A i \in 1..Len(L) : WellFormedTree(L[i])
 
 \* ------------------------------------------------------------------ paths
 \* requested paths are relative, of plain components: [c, t]; the empty path is the root
-AsPath(P) == [a |-> FALSE, c |-> P.c, t |-> P.t]
+\* (a requested path may carry a = TRUE, "starts with '/'": only the degenerate rooted paths "/", "//", "/.." of
+\*  C14, and only in localized calls - an unlocalized rooted path would leave the layer and is out of scope)
+AsPath(P) == [a |-> IF "a" \in DOMAIN P THEN P.a ELSE FALSE, c |-> P.c, t |-> P.t]
 RenderRel(A) == Render(AsPath(A))
 \* the actual (on-disk) path(s) of a request: the localisation mapping of C14, or the path itself
 Actuals(cfg, lang, P, loc) ==
